@@ -648,6 +648,73 @@ Proof. reflexivity. Qed.
 Example c11_cache_incomplete_nonvacuous : c11_cfg_complete c11_cfg_source_like = false.
 Proof. reflexivity. Qed.
 
+(* queries are pure in their argument and repeatable: the caller's array is what it was, so the same
+   array handed in again (to any tree, with any k) is the same query *)
+Lemma c11_arg_unchanged : forall num s q rad, c11_arg_after false num s q rad = q.
+Proof. reflexivity. Qed.
+
+Lemma c11_query_repeatable : forall num T g kd s m q rad k kd' k',
+  c11_query num T g kd' s m (c11_arg_after false num s q rad) rad k' = c11_query num T g kd' s m q rad k'
+  /\ (c11_query num T g kd s m q rad k = c11_query num T g kd s m (c11_arg_after false num s q rad) rad k).
+Proof. intros. split; reflexivity. Qed.
+
+Example c11_query_repeatable_nonvacuous :
+  c11_query 3 2 c11_ex_grid C11Nodes C11Spherical C11L2 (c11_arg_after false 3 C11Spherical [[20; 170]] false) false 2
+  = Some [[(0, 1%nat); (234000, 0%nat)]].
+Proof. vm_compute. reflexivity. Qed.
+
+(* the in-place variant answers the second, identical-looking call differently *)
+Lemma c11_arg_inplace_refuted : exists num T g kd s m q k,
+  c11_query num T g kd s m (c11_arg_after true num s q false) false k <> c11_query num T g kd s m q false k.
+Proof.
+  exists 3, 2, c11_ex_grid, C11Nodes, C11Spherical, C11L2, [[20; 170]], 1%nat.
+  vm_compute. intros E. discriminate.
+Qed.
+
+(* a derived grid starts with its own empty caches: whatever is requested on it, the first grid's cache
+   state - hence what every handle obtained from the first grid answers - stays what it was *)
+Lemma c11_run2_derived_only : forall cfb cfk ops sa sb,
+  Forall (fun o => match o with C11OnDerived _ => True | _ => False end) ops ->
+  fst (c11_run2 false cfb cfk sa sb ops) = sa.
+Proof.
+  induction ops as [|o ops IH]; intros sa sb H; [reflexivity|].
+  inversion H as [|? ? Ho Hr]; subst. destruct o as [r|r]; [contradiction|].
+  cbn [c11_run2]. apply IH. exact Hr.
+Qed.
+
+Lemma c11_derived_independent : forall cfb cfk rs ops,
+  Forall (fun o => match o with C11OnDerived _ => True | _ => False end) ops ->
+  let sa := c11_run cfb cfk c11_init rs in
+  c11_handles (fst (c11_run2 false cfb cfk sa (c11_derive false sa) ops)) = c11_handles sa.
+Proof. intros. cbn zeta. rewrite c11_run2_derived_only; auto. Qed.
+
+(* and symmetrically: requests on the first grid do not touch the derived grid's state *)
+Lemma c11_run2_original_only : forall cfb cfk ops sa sb,
+  Forall (fun o => match o with C11OnOriginal _ => True | _ => False end) ops ->
+  snd (c11_run2 false cfb cfk sa sb ops) = sb.
+Proof.
+  induction ops as [|o ops IH]; intros sa sb H; [reflexivity|].
+  inversion H as [|? ? Ho Hr]; subst. destruct o as [r|r]; [|contradiction].
+  cbn [c11_run2]. apply IH. exact Hr.
+Qed.
+
+Example c11_derived_independent_nonvacuous :
+  c11_handles (fst (c11_run2 false c11_cfg_repaired c11_cfg_repaired
+                     (c11_run c11_cfg_repaired c11_cfg_repaired c11_init [c11_mk C11Ball C11Nodes C11Spherical C11Hav])
+                     c11_init [C11OnDerived (c11_mk C11Ball C11Faces C11Spherical C11Hav)]))
+  = (Some (C11Nodes, Some (C11Spherical, C11Hav)), None).
+Proof. reflexivity. Qed.
+
+(* handing the cached wrappers to the derived grid by reference breaks it: a request for another kind on
+   the derived grid flips the handle obtained from the first grid *)
+Lemma c11_shared_trees_refuted : exists cf r0 r1,
+  let sa := c11_run cf cf c11_init [r0] in
+  c11_handles (fst (c11_run2 true cf cf sa (c11_derive true sa) [C11OnDerived r1])) <> c11_handles sa.
+Proof.
+  exists c11_cfg_repaired, (c11_mk C11Ball C11Nodes C11Spherical C11Hav), (c11_mk C11Ball C11Faces C11Spherical C11Hav).
+  cbn. intros E. discriminate.
+Qed.
+
 (* the history of DESIGN section 8 on the faithful configuration: the second request asks for a
    Cartesian tree and gets the spherical haversine one back *)
 Example c11_cache_source_like_witness :
